@@ -2058,7 +2058,11 @@ class C08(Prop):
             if len(spec) < 2:
                 continue
             # the continuation Q must not look at the document root (fstep_rootfree): `$` there is the value P reached, not the document
-            rooted = [j for j, st in enumerate(spec) for st1 in [st[1] if st[0] == 11 else st] if st1[0] == 10 and any(b[0] in ('re', 'rn', 'cr', 'pq') for conj in st1[1] for b in conj)]
+            def tree_leaves(t):
+                return [t[1]] if t[0] == 'b' else tree_leaves(t[1]) if t[0] == 'p' else tree_leaves(t[1]) + tree_leaves(t[2])
+            rooted = [j for j, st in enumerate(spec) for st1 in [st[1] if st[0] == 11 else st]
+                      if (st1[0] == 10 and any(b[0] in ('re', 'rn', 'cr', 'pq') for conj in st1[1] for b in conj))
+                      or (st1[0] == 15 and any(b[0] in ('re', 'rn', 'cr', 'pq') for b in tree_leaves(st1[1])))]
             lo = max(rooted) + 1 if rooted else 1
             if lo > len(spec) - 1:
                 continue
